@@ -83,6 +83,9 @@ Faults == <<
   <<"either", "align-upper", "ALIGN 4">>,
   <<"either", "instruction-upper", "ADDI x5, x5, 1">>,
   <<"either", "pseudo-upper", "LI x5, 3">>,
+  \* li of a value wider than 32 bits (today: taken modulo 2^32; a refusal would be fine too)
+  <<"either", "li-wide", "li x5, 1 << 40">>,
+  <<"either", "li-wide-negative", "li x5, 0 - (1 << 33)">>,
   <<"noninteger", "float", "addi x5, x5, 1.5">>,
   <<"noninteger", "division", "KZ = 3 / 2">>,
   <<"noninteger", "data", "dw 2.5">>,
